@@ -206,4 +206,436 @@ theorem eventsAt_ok {c : Ctx} {r : Refine} (hsz : Sizes c) (hcb : EqualValuesEqu
               simp only [useAddr, geomOf_lutStart, slotBytes]; rw [g6]
               rw [load_in _ _ _ _ _ (by omega) (by omega)]; simp
 
+/-! ## invariants of the tracked state alone (no hypothesis on sizes) -/
+
+structure StInv (c : Ctx) (st : State) : Prop where
+  fromCtx : ∀ u ∈ st, u.vals = c.vals u.tid ∧ u.size = c.size u.tid
+  disjoint : st.Pairwise ByteDisjoint
+  distinct : st.Pairwise fun u v => u.vals ≠ v.vals
+
+theorem stInv_nil (c : Ctx) : StInv c [] := ⟨fun _ h => absurd h List.not_mem_nil, List.Pairwise.nil, List.Pairwise.nil⟩
+
+theorem byteDisjoint_symm {u v : Tab} (h : ByteDisjoint u v) : ByteDisjoint v u := fun b hb => h b ⟨hb.2, hb.1⟩
+
+/-- states the pass can be in -/
+inductive Reach (c : Ctx) : PS → Prop
+  | init : Reach c {}
+  | step {s s' : PS} {cmd : Cmd} {a : Act} : Reach c s → step c s cmd = .ok (s', a) → Reach c s'
+
+theorem step_stInv {c : Ctx} {s s' : PS} {cmd : Cmd} {a : Act} (h : StInv c s.st) (hs : step c s cmd = .ok (s', a)) :
+    StInv c s'.st := by
+  cases cmd with
+  | other => simp only [step] at hs; injection hs with hs; injection hs with h1 _; subst h1; exact h
+  | stripe p =>
+    simp only [step] at hs
+    split at hs
+    · injection hs with hs; injection hs with h1 _; subst h1; exact stInv_nil c
+    · injection hs with hs; injection hs with h1 _; subst h1; exact h
+  | lutDma p t =>
+    simp only [step] at hs
+    split at hs
+    · injection hs with hs; injection hs with h1 _; subst h1; exact h
+    · rename_i heq
+      split at hs
+      · cases hs
+      · rename_i a' hfba
+        injection hs with hs; injection hs with h1 _; subst h1
+        refine ⟨?_, ?_, ?_⟩
+        · intro u hu
+          simp only [put, List.mem_cons, List.mem_filter] at hu
+          rcases hu with rfl | ⟨hu, _⟩
+          · simp [mkTab]
+          · exact h.fromCtx u hu
+        · simp only [put, List.pairwise_cons]
+          refine ⟨?_, h.disjoint.sublist List.filter_sublist⟩
+          intro u hu
+          simp only [List.mem_filter, Bool.not_eq_true'] at hu
+          exact byteDisjoint_of_not_overlaps hu.2
+        · simp only [put, List.pairwise_cons]
+          refine ⟨?_, h.distinct.sublist List.filter_sublist⟩
+          intro u hu
+          simp only [List.mem_filter] at hu
+          have := getEquivalent_none heq u hu.1
+          simp only [mkTab]; exact fun e => this e.symm
+
+theorem reach_stInv {c : Ctx} {s : PS} (h : Reach c s) : StInv c s.st := by
+  induction h with
+  | init => exact stInv_nil c
+  | step _ hs ih => exact step_stInv ih hs
+
+theorem run_reach {c : Ctx} : ∀ (cmds : List Cmd) (s sf : PS) (acts : List Act), Reach c s → run c s cmds = .ok (acts, sf) →
+    Reach c sf := by
+  intro cmds
+  induction cmds with
+  | nil => intro s sf acts h hr; simp only [run] at hr; injection hr with hr; injection hr with _ h2; subst h2; exact h
+  | cons cmd rest ih =>
+    intro s sf acts h hr
+    simp only [run] at hr
+    split at hr
+    · cases hr
+    · rename_i s' a hs
+      split at hr
+      · cases hr
+      · rename_i as sf' hrest
+        injection hr with hr; injection hr with _ h2; subst h2
+        exact ih s' _ as (Reach.step h hs) hrest
+
+
+/-- an object that is in the list is found by `get_equivalent` as itself -/
+theorem getEquivalent_self {c : Ctx} {st : State} (h : StInv c st) {u : Tab} (hu : u ∈ st) :
+    getEquivalent st u.vals = some u := by
+  cases heq : getEquivalent st u.vals with
+  | none => exact absurd rfl (getEquivalent_none heq u hu)
+  | some e =>
+    obtain ⟨he, hv⟩ := getEquivalent_some heq
+    by_cases hne : e = u
+    · rw [hne]
+    · exfalso
+      rcases List.mem_iff_getElem.1 he with ⟨i, hi, rfl⟩
+      rcases List.mem_iff_getElem.1 hu with ⟨j, hj, rfl⟩
+      rcases Nat.lt_trichotomy i j with hij | hij | hij
+      · exact (List.pairwise_iff_getElem.1 h.distinct i j hi hj hij) hv
+      · subst hij; exact hne rfl
+      · exact (List.pairwise_iff_getElem.1 h.distinct j i hj hi hij) hv.symm
+
+/-- the copy of the address kept in the model's list cannot go stale: when the pass processes the DMA of a tensor object
+    that is in the list, it finds that very entry and "assigns" the address the entry already has; nothing is placed -/
+theorem assign_keeps_state {c : Ctx} {s : PS} (hr : Reach c s) {u : Tab} (hu : u ∈ s.st) (p : Nat) :
+    ∃ s', step c s (.lutDma p u.tid) = .ok (s', .dropped u u.addr ((u.addr - c.lutStart) / slotSize)) ∧ s'.st = s.st ∧
+      lookup s'.env.addr u.tid = some u.addr := by
+  have hst := reach_stInv hr
+  have hv := (hst.fromCtx u hu).1
+  have := getEquivalent_self hst hu
+  rw [hv] at this
+  simp only [step, this]
+  exact ⟨_, rfl, rfl, lookup_cons_self _ _ _⟩
+
+/-! ## geometry of the tracked state and of every decision (sizes 256 … 2048) -/
+
+def InWin (c : Ctx) (u : Tab) : Prop :=
+  c.lutStart ≤ u.addr ∧ u.addr + u.size ≤ c.lutStart + c.lutSize ∧ (u.addr - c.lutStart) % u.size = 0 ∧ (u.addr - c.lutStart) % 256 = 0
+
+theorem step_inWin {c : Ctx} (hsz : Sizes c) {s s' : PS} {cmd : Cmd} {a : Act} (h : ∀ u ∈ s.st, InWin c u)
+    (hs : step c s cmd = .ok (s', a)) : ∀ u ∈ s'.st, InWin c u := by
+  cases cmd with
+  | other => simp only [step] at hs; injection hs with hs; injection hs with h1 _; subst h1; exact h
+  | stripe p =>
+    simp only [step] at hs
+    split at hs
+    · injection hs with hs; injection hs with h1 _; subst h1; exact fun _ hu => absurd hu List.not_mem_nil
+    · injection hs with hs; injection hs with h1 _; subst h1; exact h
+  | lutDma p t =>
+    simp only [step] at hs
+    split at hs
+    · injection hs with hs; injection hs with h1 _; subst h1; exact h
+    · split at hs
+      · cases hs
+      · rename_i a' hfba
+        injection hs with hs; injection hs with h1 _; subst h1
+        obtain ⟨g1, g2, g3, g4, _, _⟩ := placed_geometry hsz hfba
+        intro u hu
+        simp only [put, List.mem_cons, List.mem_filter] at hu
+        rcases hu with rfl | ⟨hu, _⟩
+        · exact ⟨g1, g2, g3, g4⟩
+        · exact h u hu
+
+theorem reach_inWin {c : Ctx} (hsz : Sizes c) {s : PS} (h : Reach c s) : ∀ u ∈ s.st, InWin c u := by
+  induction h with
+  | init => exact fun _ hu => absurd hu List.not_mem_nil
+  | step _ hs ih => exact step_inWin hsz ih hs
+
+/-- what a table DMA is given -/
+theorem lutDma_decision {c : Ctx} (hsz : Sizes c) {s s' : PS} (hr : Reach c s) {p t : Nat} {act : Act}
+    (hs : step c s (.lutDma p t) = .ok (s', act)) :
+    ∃ a i, lookup s'.env.addr t = some a ∧ lookup s'.env.idx p = some i ∧ a = c.lutStart + 256 * i ∧ i < 8 ∧
+      i = (a - c.lutStart) / 256 ∧
+      ((act = .placed a i ∧ a + c.size t ≤ c.lutStart + c.lutSize ∧ (a - c.lutStart) % c.size t = 0 ∧
+          s'.st = put s.st (mkTab c t a) ∧ getEquivalent s.st (c.vals t) = none) ∨
+       (∃ e, act = .dropped e a i ∧ e ∈ s.st ∧ e.vals = c.vals t ∧ e.addr = a ∧ getEquivalent s.st (c.vals t) = some e ∧ s'.st = s.st)) := by
+  simp only [step] at hs
+  split at hs
+  · rename_i e heq
+    injection hs with hs; injection hs with h1 h2; subst h1; subst h2
+    obtain ⟨hmem, hv⟩ := getEquivalent_some heq
+    obtain ⟨w1, w2, _, w4⟩ := reach_inWin hsz hr e hmem
+    have hsize := (reach_stInv hr).fromCtx e hmem
+    obtain ⟨h2k, hss⟩ := hsz
+    have := hss e.tid
+    refine ⟨e.addr, _, lookup_cons_self _ _ _, lookup_cons_self _ _ _, ?_, ?_, rfl, Or.inr ⟨e, rfl, hmem, hv, rfl, heq, rfl⟩⟩
+    · simp only [slotSize]; omega
+    · simp only [slotSize]; omega
+  · rename_i heq
+    split at hs
+    · cases hs
+    · rename_i a hfba
+      injection hs with hs; injection hs with h1 h2; subst h1; subst h2
+      obtain ⟨g1, g2, g3, g4, g5, g6⟩ := placed_geometry hsz hfba
+      exact ⟨a, _, lookup_cons_self _ _ _, lookup_cons_self _ _ _, g6.symm, g5, rfl, Or.inl ⟨rfl, g2, g3, rfl, heq⟩⟩
+
+/-- the pass never raises on the sizes of the property -/
+theorem step_total {c : Ctx} (hsz : Sizes c) (s : PS) (cmd : Cmd) : ∃ r, step c s cmd = .ok r := by
+  cases cmd with
+  | other => exact ⟨_, rfl⟩
+  | stripe p => simp only [step]; split <;> exact ⟨_, rfl⟩
+  | lutDma p t =>
+    simp only [step]
+    split
+    · exact ⟨_, rfl⟩
+    · have : c.size t ≠ 0 := by rcases hsz.2 t with e | e | e | e <;> omega
+      simp only [findBestAddress, this, if_false]
+      exact ⟨_, rfl⟩
+
+theorem run_total {c : Ctx} (hsz : Sizes c) : ∀ (cmds : List Cmd) (s : PS), ∃ r, run c s cmds = .ok r := by
+  intro cmds
+  induction cmds with
+  | nil => exact fun s => ⟨_, rfl⟩
+  | cons cmd rest ih =>
+    intro s
+    obtain ⟨⟨s', a⟩, hs⟩ := step_total hsz s cmd
+    obtain ⟨⟨as, sf⟩, hr⟩ := ih s'
+    exact ⟨(a :: as, sf), by simp only [run, hs, hr]⟩
+
+
+/-! ## values at decision time and values at the end -/
+
+theorem lookup_some_mem {l : List (Nat × Nat)} {k v : Nat} (h : lookup l k = some v) : (k, v) ∈ l := by
+  unfold lookup at h
+  cases hf : l.find? (fun e => e.1 == k) with
+  | none => rw [hf] at h; cases h
+  | some e =>
+    rw [hf] at h
+    have h1 := List.mem_of_find?_eq_some hf
+    have h2 : e.1 = k := by simpa using List.find?_some hf
+    injection h with h
+    have : e = (k, v) := by cases e; simp_all
+    rw [← this]; exact h1
+
+theorem step_env_mono {c : Ctx} {s s' : PS} {cmd : Cmd} {a : Act} (hs : step c s cmd = .ok (s', a)) :
+    (∀ e ∈ s.env.addr, e ∈ s'.env.addr) ∧ (∀ e ∈ s.env.idx, e ∈ s'.env.idx) := by
+  cases cmd with
+  | other => simp only [step] at hs; injection hs with hs; injection hs with h1 _; subst h1; exact ⟨fun _ h => h, fun _ h => h⟩
+  | stripe p =>
+    simp only [step] at hs
+    split at hs <;> (injection hs with hs; injection hs with h1 _; subst h1; exact ⟨fun _ h => h, fun _ h => h⟩)
+  | lutDma p t =>
+    simp only [step] at hs
+    split at hs
+    · injection hs with hs; injection hs with h1 _; subst h1
+      exact ⟨fun _ h => List.mem_cons_of_mem _ h, fun _ h => List.mem_cons_of_mem _ h⟩
+    · split at hs
+      · cases hs
+      · injection hs with hs; injection hs with h1 _; subst h1
+        exact ⟨fun _ h => List.mem_cons_of_mem _ h, fun _ h => List.mem_cons_of_mem _ h⟩
+
+theorem run_env_mono {c : Ctx} : ∀ (cmds : List Cmd) (s sf : PS) (acts : List Act), run c s cmds = .ok (acts, sf) →
+    (∀ e ∈ s.env.addr, e ∈ sf.env.addr) ∧ (∀ e ∈ s.env.idx, e ∈ sf.env.idx) := by
+  intro cmds
+  induction cmds with
+  | nil => intro s sf acts hr; simp only [run] at hr; injection hr with hr; injection hr with _ h2; subst h2; exact ⟨fun _ h => h, fun _ h => h⟩
+  | cons cmd rest ih =>
+    intro s sf acts hr
+    simp only [run] at hr
+    split at hr
+    · cases hr
+    · rename_i s' a hs
+      split at hr
+      · cases hr
+      · rename_i as sf' hrest
+        injection hr with hr; injection hr with _ h2; subst h2
+        obtain ⟨m1, m2⟩ := step_env_mono hs
+        obtain ⟨n1, n2⟩ := ih s' _ as hrest
+        exact ⟨fun e h => n1 e (m1 e h), fun e h => n2 e (m2 e h)⟩
+
+theorem stable_addr {env : Env} (h : stable env = true) {k v : Nat} (hm : (k, v) ∈ env.addr) : lookup env.addr k = some v := by
+  simp only [stable, Bool.and_eq_true, List.all_eq_true] at h
+  simpa using h.1 (k, v) hm
+
+theorem stable_idx {env : Env} (h : stable env = true) {k v : Nat} (hm : (k, v) ∈ env.idx) : lookup env.idx k = some v := by
+  simp only [stable, Bool.and_eq_true, List.all_eq_true] at h
+  simpa using h.2 (k, v) hm
+
+/-- when no assignment of the pass was overwritten later, the stream the later stages see is the stream with the values
+    of decision time -/
+theorem eventsFinal_eq_eventsAt {c : Ctx} {r : Refine} (hpa : PassesAgree c r) {E : Env} (hst : stable E = true) :
+    ∀ (cmds : List Cmd) (s sf : PS) (acts : List Act) (cur : Option (Nat × Nat)), run c s cmds = .ok (acts, sf) →
+      (∀ e ∈ sf.env.addr, e ∈ E.addr) → (∀ e ∈ sf.env.idx, e ∈ E.idx) →
+      (∀ p t, cur = some (p, t) → ∃ i, lookup s.env.idx p = some i) → OrigOk c r cur cmds →
+      eventsFinal c r E cmds acts = eventsAt c r s cmds := by
+  intro cmds
+  induction cmds with
+  | nil => intro s sf acts cur hr _ _ _ _; simp only [run] at hr; injection hr with hr; injection hr with h1 _; subst h1; rfl
+  | cons cmd rest ih =>
+    intro s sf acts cur hr hE1 hE2 hcur horig
+    simp only [run] at hr
+    split at hr
+    · cases hr
+    · rename_i s' a hs
+      split at hr
+      · cases hr
+      · rename_i as sf' hrest
+        injection hr with hr; injection hr with h1 h2; subst h1; subst h2
+        obtain ⟨n1, n2⟩ := run_env_mono rest s' _ as hrest
+        cases cmd with
+        | other =>
+          simp only [eventsFinal, eventsAt, hs]
+          have : s' = s := by simp only [step] at hs; injection hs with hs; injection hs with h1 _; exact h1.symm
+          subst this
+          simp only [OrigOk] at horig
+          rw [ih s' _ as cur hrest hE1 hE2 hcur horig]
+        | stripe p =>
+          simp only [eventsFinal, eventsAt, hs]
+          have hp := hpa p
+          cases hpt : r.passTab p with
+          | some t =>
+            rw [hpt] at hp
+            simp only [OrigOk, hpt] at horig
+            obtain ⟨hc, horig⟩ := horig
+            obtain ⟨i, hi⟩ := hcur p t hc
+            have : s' = s := by
+              simp only [step, hp, Option.isSome_some, Bool.not_true, Bool.false_and, Bool.false_eq_true, if_false] at hs
+              injection hs with hs; injection hs with h1 _; exact h1.symm
+            subst this
+            have hfin : lookup E.idx p = some i := stable_idx hst (hE2 _ (n2 _ (lookup_some_mem hi)))
+            rw [hfin, hi, ih s' _ as cur hrest hE1 hE2 hcur horig]
+          | none =>
+            rw [hpt] at hp
+            simp only [OrigOk, hpt] at horig
+            simp only [stripeEv, hpt]
+            congr 1
+            simp only [step, hp, Option.isSome_none, Bool.not_false, Bool.true_and] at hs
+            split at hs
+            · rename_i hres
+              injection hs with hs; injection hs with h1 _; subst h1
+              rw [if_pos hres] at horig
+              exact ih _ _ as none hrest hE1 hE2 (fun _ _ h => nomatch h) horig
+            · rename_i hres
+              injection hs with hs; injection hs with h1 _; subst h1
+              rw [if_neg hres] at horig
+              exact ih _ _ as cur hrest hE1 hE2 hcur horig
+        | lutDma p t =>
+          simp only [OrigOk] at horig
+          simp only [eventsFinal, eventsAt, hs]
+          have hnext : ∃ i, lookup s'.env.idx p = some i := by
+            simp only [step] at hs
+            split at hs
+            · injection hs with hs; injection hs with h1 _; subst h1; exact ⟨_, lookup_cons_self _ _ _⟩
+            · split at hs
+              · cases hs
+              · injection hs with hs; injection hs with h1 _; subst h1; exact ⟨_, lookup_cons_self _ _ _⟩
+          have hcur' : ∀ p' t', some (p, t) = some (p', t') → ∃ i, lookup s'.env.idx p' = some i := by
+            intro p' t' h; injection h with h; injection h with h1 _; subst h1; exact hnext
+          rw [ih s' _ as (some (p, t)) hrest hE1 hE2 hcur' horig]
+          congr 1
+          simp only [step] at hs
+          split at hs
+          · injection hs with hs; injection hs with _ h2; subst h2; simp [Act.kept]
+          · split at hs
+            · cases hs
+            · rename_i a' _
+              injection hs with hs; injection hs with h1 h2; subst h1; subst h2
+              have : lookup E.addr t = some a' := stable_addr hst (hE1 _ (n1 _ List.mem_cons_self))
+              simp [Act.kept, this]
+
+
+/-! ## the executable checker decides the Spec -/
+
+theorem holdsB_iff (g : Geom) (w : Window) (c n i : Nat) : holdsB g w c n i = true ↔ Holds g w c n i := by
+  simp only [holdsB, Holds, Bool.and_eq_true, decide_eq_true_eq, List.all_eq_true, List.mem_range, beq_iff_eq]
+  constructor
+  · rintro ⟨⟨h1, h2⟩, h3⟩; exact ⟨h1, h2, h3⟩
+  · rintro ⟨h1, h2, h3⟩; exact ⟨⟨h1, h2⟩, h3⟩
+
+theorem evOkB_iff (g : Geom) (w : Window) (e : Ev) : evOkB g w e = true ↔ EvOk g w e := by
+  cases e with
+  | load c n a => simp [evOkB, EvOk, inWindowB, InWindow]
+  | use c n i => simpa [evOkB, EvOk] using holdsB_iff g w c n i
+  | kernel => simp [evOkB, EvOk]
+  | nop => simp [evOkB, EvOk]
+
+theorem streamOkB_iff (g : Geom) : ∀ (evs : List Ev) (w : Window), streamOkB g w evs = true ↔ StreamOk g w evs := by
+  intro evs
+  induction evs with
+  | nil => intro w; simp [streamOkB, StreamOk]
+  | cons e es ih => intro w; simp only [streamOkB, StreamOk, Bool.and_eq_true, evOkB_iff, ih]
+
+theorem origOkB_iff (c : Ctx) (r : Refine) : ∀ (cmds : List Cmd) (cur : Option (Nat × Nat)),
+    origOkB c r cur cmds = true ↔ OrigOk c r cur cmds := by
+  intro cmds
+  induction cmds with
+  | nil => intro cur; simp [origOkB, OrigOk]
+  | cons cmd rest ih =>
+    intro cur
+    cases cmd with
+    | lutDma p t => simp only [origOkB, OrigOk, ih]
+    | other => simp only [origOkB, OrigOk, ih]
+    | stripe p =>
+      simp only [origOkB, OrigOk]
+      split <;> simp [ih]
+
+/-- a kernel without table on a configuration where it may use the window leaves no table usable -/
+theorem kernel_clobbers_every_table (g : Geom) (hc : g.clobbers = true) (w : Window) (c n i : Nat) (hn : 0 < n) :
+    ¬ Holds g (stepW g w .kernel) c n i := by
+  rintro ⟨_, _, h⟩
+  have := h 0 hn
+  simp [stepW, hc, Window.empty] at this
+
+/-! ## `find_best_address` picks a place with the fewest overlaps -/
+
+theorem nrOverlaps_le_length (st : State) (a step : Nat) : nrOverlaps st a step ≤ st.length := by
+  unfold nrOverlaps; exact List.length_filter_le _ _
+
+theorem foldl_fba_min (st : State) (step : Nat) (l : List Nat) (b : Nat × Nat) :
+    (∀ a ∈ l, (l.foldl (fbaStep st step) b).2 ≤ nrOverlaps st a step) ∧ (l.foldl (fbaStep st step) b).2 ≤ b.2 ∧
+      ((l.foldl (fbaStep st step) b) = b ∨
+        (l.foldl (fbaStep st step) b).2 = nrOverlaps st (l.foldl (fbaStep st step) b).1 step) := by
+  induction l generalizing b with
+  | nil => simp
+  | cons x l ih =>
+    simp only [List.foldl_cons, List.mem_cons, forall_eq_or_imp]
+    obtain ⟨i1, i2, i3⟩ := ih (fbaStep st step b x)
+    by_cases hc : nrOverlaps st x step < b.2
+    · have hx : fbaStep st step b x = (x, nrOverlaps st x step) := by simp [fbaStep, hc]
+      rw [hx] at i1 i2 i3 ⊢
+      refine ⟨⟨i2, i1⟩, by simp only at i2; omega, ?_⟩
+      rcases i3 with h | h
+      · right; rw [h]
+      · right; exact h
+    · have hx : fbaStep st step b x = b := by simp [fbaStep, hc]
+      rw [hx] at i1 i2 i3 ⊢
+      exact ⟨⟨by omega, i1⟩, i2, i3⟩
+
+/-- `find_best_address` returns an address of the range with the minimal number of overlapping entries (as long as the
+    list is shorter than `stop`, the value the loop starts from) -/
+theorem findBestAddress_minimal {st : State} {start stop step a : Nat} (h : findBestAddress st start stop step = .ok a)
+    (hlen : st.length < stop) (hne : start < stop) :
+    a ∈ pyRange start stop step ∧ ∀ a' ∈ pyRange start stop step, nrOverlaps st a step ≤ nrOverlaps st a' step := by
+  unfold findBestAddress at h
+  split at h
+  · cases h
+  · rename_i hs
+    have hs' : 0 < step := Nat.pos_of_ne_zero hs
+    injection h with h
+    obtain ⟨m1, _, m3⟩ := foldl_fba_min st step (pyRange start stop step) (start, stop)
+    have hstart : start ∈ pyRange start stop step := (mem_pyRange hs').2 ⟨0, by simp, by simpa using hne⟩
+    have hlt := m1 start hstart
+    have hl := nrOverlaps_le_length st start step
+    rcases m3 with e | e
+    · rw [e] at hlt; simp only at hlt; omega
+    · rw [h] at e
+      refine ⟨?_, fun a' ha' => by rw [← e]; exact m1 a' ha'⟩
+      rcases foldl_fba_fst st step (pyRange start stop step) (start, stop) with h1 | h1
+      · rw [h] at h1; simp only at h1; rw [h1]; exact hstart
+      · rw [h] at h1; exact h1
+
+/-- placing a table where nothing overlaps evicts nothing -/
+theorem put_of_no_overlap (st : State) (t : Tab) (h : nrOverlaps st t.addr t.size = 0) : put st t = t :: st := by
+  unfold put
+  congr 1
+  rw [List.filter_eq_self]
+  intro u hu
+  unfold nrOverlaps at h
+  have := List.length_eq_zero_iff.1 h
+  rw [List.filter_eq_nil_iff] at this
+  simpa [Tab.stop] using this u hu
+
 end VelaVerif.Lemmas.LutState
